@@ -273,10 +273,12 @@ func (k Keeper) ClosePool(ctx sdk.Context, pool types.Pool) {
 	store.Delete(types.GetPoolKey(pool.Id))
 }
 
-// ClosePools closes pools when both of the pool's shield and shield limit is non-positive.
+// ClosePools closes pools when both of the pool's shield and shield limit is non-positive
+// and no purchase is left in the pool (a purchase whose shield is locked by a claim
+// still needs its pool when the claim ends or the purchase expires).
 func (k Keeper) ClosePools(ctx sdk.Context) {
 	k.IterateAllPools(ctx, func(pool types.Pool) bool {
-		if !pool.Shield.IsPositive() && !pool.ShieldLimit.IsPositive() {
+		if !pool.Shield.IsPositive() && !pool.ShieldLimit.IsPositive() && len(k.GetPoolPurchaseLists(ctx, pool.Id)) == 0 {
 			k.ClosePool(ctx, pool)
 		}
 		return false
